@@ -201,6 +201,12 @@ impl RequestHandler<Rename> for RenameHandler {
                             (loc.uri, edit)
                         })
                         .into_group_map();
+
+                    // Determining the edits has renamed symbols in the live symbol table, but the documents
+                    // do not change until the client applies the edits: redo the analysis of the documents
+                    drop(codegen);
+                    ctx.perform_codegen();
+
                     return Ok(Some(WorkspaceEdit {
                         changes: Some(changes),
                         document_changes: None,
